@@ -23,6 +23,10 @@ def main():
         import check_tree
 
         return check_tree.run(a.prop, a.tier, replay=a.replay)
+    if a.prop in ("C06",):
+        import check_bt
+
+        return check_bt.run(a.prop, a.tier, replay=a.replay)
     print("unknown property %s" % a.prop, file=sys.stderr)
     return 2
 
